@@ -10,7 +10,8 @@ CONSTANTS
   Level = 0
   Mode = "q"
   SimDepth = 0
-INIT GenInit
+  Chains = 0
+INIT GenInitAll
 NEXT GenNext
 INVARIANT Emit
 VIEW GenView
